@@ -154,6 +154,7 @@ VARIANTS += [
     ("C07-rs-fraction-7", "C07", RSP, "                        // Expand missing microsecond\n                        while i < 6 {\n                            datetime.microsecond *= 10;\n                            i += 1;\n                        }\n                    }\n\n                    if datetime.has_date && !datetime.extended_date_format", "                        // Expand missing microsecond\n                        while i < 5 {\n                            datetime.microsecond *= 10;\n                            i += 1;\n                        }\n                    }\n\n                    if datetime.has_date && !datetime.extended_date_format", "FRACTION"),
     ("C07-py-offset-sign", "C07", ISO, '            negative = bool(tz.startswith("-"))', '            negative = bool(tz.startswith("+"))', "OFFSET.parse"),
     ("C07-fmt-offset-clone", "C07", FMT, "            offset = ((int(off_hour) * 60) + int(off_minute)) * 60", "            offset = ((int(off_hour) * 60) + int(off_minute)) * 6", "OFFSET.parse"),
+    ("C07-rs-tz-utcoffset-abs", "C07", "rust/src/python/types/timezone.rs", "PyDelta::new_bound(py, 0, self.offset, 0, true)", "PyDelta::new_bound(py, 0, self.offset.abs(), 0, true)", "RSISO.tabulated"),
     ("C07-rs-T-extended", "C07", RSP, "                    if datetime.has_date && !datetime.extended_date_format {", "                    if !datetime.extended_date_format {", "RSISO.tabulated"),
     ("C07-rs-offset", "C07", RSP, "            tzminute += tzhour * 60;", "            tzminute += tzhour * 6;", "OFFSET.parse"),
     ("C07-rs-offset-sign", "C07", RSP, "let tzsign = if self.current == '+' { 1 } else { -1 };", "let tzsign = if self.current == '-' { 1 } else { -1 };", "OFFSET.parse"),
